@@ -292,3 +292,25 @@ def save_replay(prop, v):
 
 def format_exc():
     return traceback.format_exc()
+
+
+def machine_base():
+    """Base class for rule-based machines (imported lazily so that core does not need hypothesis at import time)."""
+    from hypothesis.stateful import RuleBasedStateMachine
+
+    class MachineBase(RuleBasedStateMachine):
+        _ctx = None
+        _sub = None
+        _holder = None
+
+        def fail(self, key, detail, case):
+            if self._ctx.is_known(key):
+                self._ctx.known_seen[key] += 1
+                return
+            self._holder['last'] = (case, key, detail)
+            raise _Violation(key, detail)
+
+        def done(self, case, res):
+            self._ctx.record(self._sub, case, res)
+
+    return MachineBase
